@@ -27,7 +27,7 @@ import ast
 import re
 
 from common import AnalysisError, Finding, norm
-from repo import kw, lit
+from repo import kw, lit, ret_value
 
 EXPLANATION = ("table and sibling cross-checks over the parsed package: 16 getX wrappers forward their parameters and the right field literal, the "
                "functional-interface rank table agrees with the field-function signatures and the attribute validators, core exports are the "
@@ -52,7 +52,7 @@ def w1(repo, res):
             problems.append(f"{len(rets)} return statements (expected exactly one)")
         own = {a.arg for a in fn.args.args + fn.args.kwonlyargs}
         for r in rets:
-            c = r.value
+            c = ret_value(fn, r)
             if not (isinstance(c, ast.Call) and isinstance(c.func, ast.Name) and c.func.id == "getBH_level2"):
                 problems.append("does not return getBH_level2(...)")
                 continue
